@@ -262,7 +262,8 @@ Definition td_joiner (w : nat) (word_wrap : bool) (indent_level : nat) (a b : op
     Ok (Some (fa ++ [nl] ++ sep ++ fb ++ [nl] ++ sep))
   end.
 
-(* the inner _param2docstring_param((name, _param), "rest", emit_default_doc, indent_level, emit_types) *)
+(* the inner _param2docstring_param((name, _param), "rest", emit_default_doc, indent_level, emit_types);
+   the second component is the private copy  dict(_param)  as the function leaves it *)
 Definition td_param (w : nat) (word_wrap emit_default_doc emit_types : bool) (indent_level : nat)
            (name : str) (p : param) : outcome (option str * param) :=
   do p1 <- (match p_doc p with
@@ -337,8 +338,9 @@ Definition to_docstring (w : nat) (i : ir) (emit_default_doc : bool) (st : style
                     end
                 | None => Ok ([], ir_returns i)
                 end);
-      Ok (header ++ fst pl ++ fst rt,
-          mkIR (ir_name i) (ir_type i) (ir_doc i) (gparams_of (snd pl)) (snd rt) (ir_internal i))
+      (* _param2docstring_param works on  _param = dict(_param) : whatever td_param wrote (extracted default,
+         default sentence, re-laid prose) stays in the copy; the caller's IR is returned as it was *)
+      Ok (header ++ fst pl ++ fst rt, i)
     | _, _ => Err Unmodelled
     end
   | _ => Err NotImplementedError
